@@ -371,6 +371,7 @@ package silence
 //@   requires e != nil && e.Silence != nil
 //@   assumes len(e.Silence.MatcherSets) > 0 ==> e.Silence.MatcherSets[0] != nil
 //@   at call protodelim.MarshalTo assert [writes-a-complete-copy] typeis(arg1, *pb.MeshSilence) && unbox(arg1, *pb.MeshSilence) != e && unbox(arg1, *pb.MeshSilence).ExpiresAt == e.ExpiresAt && unbox(arg1, *pb.MeshSilence).Silence != nil && unbox(arg1, *pb.MeshSilence).Silence != e.Silence && samefields(unbox(arg1, *pb.MeshSilence).Silence, e.Silence, "Matchers")
+//@   at call protodelim.MarshalTo assert [legacy-mirror-written] len(e.Silence.MatcherSets) > 0 ==> unbox(arg1, *pb.MeshSilence).Silence.Matchers == e.Silence.MatcherSets[0].Matchers
 //@   ensures [stored-silence-untouched] samefields(e.Silence, old(e.Silence)) && e.Silence == old(e.Silence) && e.ExpiresAt == old(e.ExpiresAt)
 //@   ensures [encoded-once] count("protodelim.MarshalTo") == 1
 //@   ensures [error-means-no-bytes] ret1("protodelim.MarshalTo") != nil ==> result0 == nil && result1 == ret1("protodelim.MarshalTo")
